@@ -2,6 +2,7 @@
 // Oracle: exact product in Z[X]/(X^N+1) (schoolbook / oracle NTT modulo a 62-bit prime), and the
 // error budget E computed in long double from the actual operands.
 #include "lib.h"
+#include "ops.h"
 #include "oracle.h"
 
 enum { F_UNIFORM, F_ALLMAX, F_ALTERNATING, F_RESONANT, F_SPARSE, F_ONEHUGE, F_BOUNDARY, F_FRONTIER, F_SMALL, F_GEOMETRIC, F_TWOLEVEL, F_BLOCKSIGN, NFAM };
@@ -434,6 +435,16 @@ static void lifecycle_case(int native, unsigned rep) {
 
 void run_C01(void) {
   const int th = G.thorough;
+  {
+    static const char* const CNAMES[] = {"znx_small_single_product", "svp_prepare", "svp_apply_dft", "vec_znx_dft", "vec_znx_idft", "vec_znx_idft_tmp_a", "vec_znx_idft(res==a_dft)"};
+    static const uint64_t CNS[] = {4, 64, 1024, 8192, 65536};
+    for (size_t i = 0; i < ARRAY_LEN(CNS); i++)
+      for (int cfg = DISP_NATIVE; cfg >= DISP_GENERIC; cfg--)
+        for (unsigned rep = 0; rep < (th ? 5u : 1u); rep++) {
+          if (!th && CNS[i] > 4096 && cfg == DISP_GENERIC) continue;
+          ops_concurrent_case("C01 entry points", CNAMES, (int)ARRAY_LEN(CNAMES), CNS[i], cfg, CNS[i] <= 256 ? 8 : 4, rep, "concurrent_entry_calls");
+        }
+  }
   if (negacyclic_selfcheck(G.seed)) harness_fail("oracle self-check failed (NTT oracle vs schoolbook)");
   cnt("oracle_selfcheck_ok", 1);
   unsigned ctr = 0;
